@@ -57,7 +57,7 @@ func (r *Run) c08Encode(t *tape.Tape, what string, enc func() ([]byte, error)) [
 		return nil
 	}
 	r.Check()
-	if why := nonCanonicalDeep(first); why != "" {
+	if why := nonCanonicalDeep(decoderNameFor(what), first); why != "" {
 		r.Fail("encoding-not-canonical/"+what, "%s encoded by go-cose is not deterministic CBOR: %s\n%s", what, why, hexShort(first))
 		return nil
 	}
@@ -469,4 +469,18 @@ func c08BrokenLayerMessage(r *Run, t *tape.Tape, l Layer, sp Spelling, broken st
 	if err != nil {
 		r.Fail("encoder-output-refused/Sign1Message/"+broken, "MarshalCBOR emitted a message whose headers break a rule (%s) and that UnmarshalCBOR refuses: %v\n%s", broken, err, hexShort(b))
 	}
+}
+
+// decoderNameFor maps the label c08Encode is given to the decoder whose
+// structural positions hold protected headers.
+func decoderNameFor(what string) string {
+	switch what {
+	case "Sign1Tagged", "Sign1()", "SignHashEnvelope()", "Sign1Message(rule-breaking headers)":
+		return "Sign1Message"
+	case "Sign1Untagged", "Sign1Untagged()":
+		return "UntaggedSign1Message"
+	case "SignTagged":
+		return "SignMessage"
+	}
+	return what
 }
